@@ -230,7 +230,7 @@ func execC12(c c12Case) Outcome {
 	var ret error
 	select {
 	case ret = <-done:
-	case <-time.After(20 * time.Second):
+	case <-time.After(10 * time.Second):
 		// The writer closes after its last write; EOF must end Ingest. Not
 		// returning long after that is a violation of "end-of-stream is
 		// returned as an error rather than ignored".
@@ -238,10 +238,10 @@ func execC12(c c12Case) Outcome {
 		case <-wdone:
 			cancel()
 			// unblock a still-pending open in Ingest, if any
-			return fail("Ingest did not return within 20s after the writer closed the pipe (%d callbacks so far)", len(got))
+			return fail("Ingest did not return within 10s after the writer closed the pipe (%d callbacks so far)", len(got))
 		default:
 			cancel()
-			panic(&infraError{"writer did not finish within 20s"})
+			panic(&infraError{"writer did not finish within 10s"})
 		}
 	}
 	cancel()
